@@ -31,6 +31,7 @@ import (
 	"io"
 	"os"
 	"path/filepath"
+	"reflect"
 	"sort"
 	"strconv"
 	"strings"
@@ -176,9 +177,119 @@ func (l *loader) relPos(p token.Pos) string {
 	return fmt.Sprintf("%s:%d", rel, pos.Line)
 }
 
+// ---- R8a: channel receives become calls, so that only the receive itself happens off the
+// baton. `<-ch` => simrt.Recv(ch), `v, ok := <-ch` => simrt.Recv2(ch). Operands and every
+// other part of the enclosing statement are evaluated by the goroutine while it still holds
+// the baton, in the order the language prescribes (a call in the same position). Receives
+// that are the communication of a select case are left for the select rewrite.
+var (
+	exprIface = reflect.TypeOf((*ast.Expr)(nil)).Elem()
+	nodeIface = reflect.TypeOf((*ast.Node)(nil)).Elem()
+)
+
+func replaceExprs(n ast.Node, f func(ast.Expr) ast.Expr) {
+	seen := map[uintptr]bool{}
+	var walk func(v reflect.Value)
+	walk = func(v reflect.Value) {
+		switch v.Kind() {
+		case reflect.Interface:
+			if v.IsNil() {
+				return
+			}
+			if v.Type() == exprIface && v.CanSet() {
+				if ne := f(v.Interface().(ast.Expr)); ne != nil {
+					v.Set(reflect.ValueOf(ne))
+				}
+			}
+			walk(v.Elem())
+		case reflect.Ptr:
+			if v.IsNil() {
+				return
+			}
+			switch v.Interface().(type) {
+			case *ast.Object, *ast.Scope:
+				return
+			}
+			if seen[v.Pointer()] {
+				return
+			}
+			seen[v.Pointer()] = true
+			walk(v.Elem())
+		case reflect.Struct:
+			for i := 0; i < v.NumField(); i++ {
+				walk(v.Field(i))
+			}
+		case reflect.Slice:
+			for i := 0; i < v.Len(); i++ {
+				walk(v.Index(i))
+			}
+		}
+	}
+	walk(reflect.ValueOf(n))
+}
+
+func isRecvExpr(e ast.Expr) (*ast.UnaryExpr, bool) {
+	for {
+		p, ok := e.(*ast.ParenExpr)
+		if !ok {
+			break
+		}
+		e = p.X
+	}
+	ue, ok := e.(*ast.UnaryExpr)
+	return ue, ok && ue.Op == token.ARROW
+}
+
+func hoistReceives(f *ast.File) {
+	skip := map[*ast.UnaryExpr]bool{}
+	two := map[*ast.UnaryExpr]bool{}
+	ast.Inspect(f, func(n ast.Node) bool {
+		switch x := n.(type) {
+		case *ast.CommClause:
+			switch c := x.Comm.(type) {
+			case *ast.ExprStmt:
+				if ue, ok := isRecvExpr(c.X); ok {
+					skip[ue] = true
+				}
+			case *ast.AssignStmt:
+				if len(c.Rhs) == 1 {
+					if ue, ok := isRecvExpr(c.Rhs[0]); ok {
+						skip[ue] = true
+					}
+				}
+			}
+		case *ast.AssignStmt:
+			if len(x.Lhs) == 2 && len(x.Rhs) == 1 {
+				if ue, ok := isRecvExpr(x.Rhs[0]); ok {
+					two[ue] = true
+				}
+			}
+		case *ast.ValueSpec:
+			if len(x.Names) == 2 && len(x.Values) == 1 {
+				if ue, ok := isRecvExpr(x.Values[0]); ok {
+					two[ue] = true
+				}
+			}
+		}
+		return true
+	})
+	replaceExprs(f, func(e ast.Expr) ast.Expr {
+		ue, ok := e.(*ast.UnaryExpr)
+		if !ok || ue.Op != token.ARROW || skip[ue] {
+			return nil
+		}
+		name := "Recv"
+		if two[ue] {
+			name = "Recv2"
+		}
+		return &ast.CallExpr{Fun: simSel(name), Args: []ast.Expr{ue.X}}
+	})
+}
+
 func rewriteFile(l *loader, pi *pkgInfo, f *ast.File) {
 	info := pi.info
 	curFunc := ""
+	hoistReceives(f)
 	var rewriteStmts func(list []ast.Stmt) []ast.Stmt
 	var visit func(n ast.Node)
 
@@ -293,6 +404,10 @@ func rewriteFile(l *loader, pi *pkgInfo, f *ast.File) {
 		switch fn.Name() {
 		case "Wait", "Lock", "RLock", "Go":
 			return fn.Name(), ce
+		case "Do":
+			if sig, ok := fn.Type().(*types.Signature); ok && sig.Recv() != nil && strings.HasSuffix(sig.Recv().Type().String(), "sync.Once") {
+				return "OnceDo", ce
+			}
 		}
 		return "", nil
 	}
@@ -526,8 +641,18 @@ func rewriteFile(l *loader, pi *pkgInfo, f *ast.File) {
 				visit(st.Call)
 				out = append(out, goCall(st.Call))
 			case *ast.SendStmt:
+				// channel and value are evaluated under the baton; only the send itself is the
+				// scheduling point:  { c := ch; v := zero of c's element type; v = val; begin; c <- v; end }
 				visit(st)
-				out = bracket(out, st)
+				cv, vv, tok := newTok(), newTok(), newTok()
+				out = append(out, &ast.BlockStmt{List: []ast.Stmt{
+					&ast.AssignStmt{Lhs: []ast.Expr{cv}, Tok: token.DEFINE, Rhs: []ast.Expr{st.Chan}},
+					&ast.AssignStmt{Lhs: []ast.Expr{vv}, Tok: token.DEFINE, Rhs: []ast.Expr{&ast.CallExpr{Fun: simSel("ZeroOfSend"), Args: []ast.Expr{cv}}}},
+					&ast.AssignStmt{Lhs: []ast.Expr{vv}, Tok: token.ASSIGN, Rhs: []ast.Expr{st.Value}},
+					beginStmt(tok),
+					&ast.SendStmt{Chan: cv, Value: vv},
+					endStmt(tok),
+				}})
 			case *ast.SelectStmt:
 				visit(st)
 				out = append(out, selectRewrite(st)...)
@@ -546,6 +671,10 @@ func rewriteFile(l *loader, pi *pkgInfo, f *ast.File) {
 							&ast.DeferStmt{Call: &ast.CallExpr{Fun: &ast.SelectorExpr{X: wg, Sel: ast.NewIdent("Done")}}},
 							&ast.ExprStmt{X: &ast.CallExpr{Fun: fv}},
 						}}}}}})
+				case name == "OnceDo" && len(call.Args) == 1:
+					// once.Do(f) => simrt.OnceDo(once.Do, f): the winner runs f under the baton,
+					// the others wait off the baton
+					out = append(out, &ast.ExprStmt{X: &ast.CallExpr{Fun: simSel("OnceDo"), Args: []ast.Expr{call.Fun, call.Args[0]}}})
 				case name != "" && name != "Go":
 					out = bracket(out, s)
 				case containsRecv(s):
